@@ -13,6 +13,7 @@ def run(rep, tier):
     rep.rule("C-numslot", "every number the text emitters write is formatted by numToStr")
     rep.rule("C-keys", "the dictionary protocol: emitted keys equal the README schemas; the plain-json conversion is a bijection that drops only per-tier spans and keeps tier order")
     rep.rule("C-flow", "blank removal is symmetric: exactly the entries with an empty label, iff includeEmptyIntervals is False")
+    rep.rule("C-blocks", "the short reader pairs adjacent tier offsets only on an ascending list (one scan, or sorted after the merge)")
     rep.rule("C-scan", "delimiter scans over raw text cannot match inside an escaped payload (constructive test)")
     rep.not_decided.append("that the regex/offset parsers invert the emitters for every Unicode label (a language-inverse question about two programs)")
     rep.not_decided.append("float(repr(x)) == x (CPython guarantee, trusted); file-system and codec behaviour")
@@ -26,3 +27,4 @@ def run(rep, tier):
     R.rule_json_protocol(rep)
     R.rule_reader_flow(rep)
     R.rule_scans(rep)
+    R.rule_block_order(rep)
